@@ -354,25 +354,57 @@ def run_plain(ctx, raw):
 def gen_angle(ctx):
     r = ctx.rng
     pi = math.pi
+    tau = _tau()
     length = r.choice([0.0, 1e-7, 0.3, 1.0, pi - 1e-6, pi, pi + 1e-6, 4.0, 5.5, 2 * pi - 1e-6, r.uniform(0, 2 * pi - 1e-9),
                        1, 2, 3, 4, 5, 6])
     start = r.choice([-pi, -pi + 0.2, pi - 0.2, -2 * pi + 0.1, 0.0, -0.1, r.uniform(-2 * pi, 2 * pi - float(length)),
                       r.uniform(-6 * pi, 6 * pi), -3, 0, 2, -6])
     if r.random() < 0.5 and not (-2 * pi <= start and start + length <= 2 * pi):
         start = r.uniform(-2 * pi, 2 * pi - float(length))
-    op = r.choice(["a_contains", "a_contains", "a_contains", "a_containsI", "a_add", "a_sub", "mk_angle", "a_setter"])
-    case = {"kind": "angle", "op": op, "s": start, "e": start + length}
+    end = start + length
+    u = r.random()
+    if u < 0.2:
+        # exact boundary positions: a bound exactly at -2pi, -pi, 0, pi, 2pi (float and int neighbours)
+        bnd = r.choice([-tau, -pi, 0.0, pi, tau, -6, 6, 0, -3, 3])
+        length = r.choice([0.0, 0, 1e-7, 0.5, 1, pi, 4.0, 6, tau - 1e-6])
+        start, end = (bnd, bnd + length) if r.random() < 0.5 else (bnd - length, bnd)
+    elif u < 0.3:
+        # constructor arguments many turns away, at and next to whole multiples of 2pi
+        k = r.choice([1, -1, 2, -2, 3, -3, 7, -10, 40, -40, 150, -300])
+        if r.random() < 0.4:
+            start = k * tau + r.choice([0.0, 1e-7, -1e-7, 0.25, -0.25])
+            end = start + float(length)
+        else:
+            start, end = start + k * tau, start + k * tau + float(length)
+    op = r.choice(["a_contains", "a_contains", "a_contains", "a_containsI", "a_rel", "a_rel", "a_add", "a_sub", "mk_angle", "a_setter"])
+    case = {"kind": "angle", "op": op, "s": start, "e": end}
+    length = float(end) - float(start)
     if op == "a_contains":
         ths = []
         for _ in range(10):
-            base = r.choice([start, start + length, start + length / 2, start - 0.01, start + length + 0.01, start + length + 1e-6,
-                             start - 1e-6, r.uniform(-7, 7), r.randint(-7, 7), start + length + (2 * pi - length) / 2])
-            k = r.choice([0, 0, 1, -1, 2, -3])
+            base = r.choice([start, end, start + length / 2, start - 0.01, end + 0.01, end + 1e-6,
+                             start - 1e-6, r.uniform(-7, 7), r.randint(-7, 7), end + (2 * pi - length) / 2,
+                             -tau, tau, -pi, pi, 0.0])
+            k = r.choice([0, 0, 1, -1, 2, -3, 50, -1000, 1000])
             th = base + 2 * pi * k
             if isinstance(base, int) and k == 0:
                 th = base
+            if r.random() < 0.04:
+                th = r.choice([-1, 1]) * r.uniform(1e3, 1e5)                        # huge angle
+            if r.random() < 0.15:
+                th = retype(r, th, allow32=False, p=1.0)                            # int / numpy 64-bit scalar of the same value
             ths.append(th)
         case["thetas"] = ths
+        if r.random() < 0.08 and abs(float(start)) < 20:
+            # numpy float32 everywhere (the library then computes in 24-bit arithmetic: judged with the band 1e-5)
+            import numpy as np
+            case["s"], case["e"] = enc(np.float32(start)), enc(np.float32(end))
+            case["thetas"] = [enc(np.float32(r.uniform(-9, 9))) for _ in range(8)]
+        elif r.random() < 0.08:
+            import numpy as np
+            case["thetas"] = [enc(np.float32(r.uniform(-9, 9))) for _ in range(8)]
+        elif r.random() < 0.1:
+            case["s"], case["e"] = retype(r, start, False, 1.0), retype(r, end, False, 1.0)
     elif op == "a_containsI":
         l2 = r.choice([0.0, length / 2, length, length + 0.01, 1.0, 5.0, r.uniform(0, 2 * pi - 1e-9)])
         s2 = r.choice([start, start + 0.1, start + length - l2, start + length / 2, r.uniform(-2 * pi, 2 * pi - l2), start - 0.05,
@@ -380,8 +412,19 @@ def gen_angle(ctx):
         if not (-2 * pi <= s2 and s2 + l2 <= 2 * pi):
             s2 = max(-2 * pi, min(s2, 2 * pi - l2))
         case["c"], case["d"] = s2, s2 + l2
+    elif op == "a_rel":
+        # every relative position of J to I: J starts before / at / inside / at the end of / behind I, ends before / at /
+        # behind I's end, reaches round into I's start (wrap-around), lies in the gap, covers the gap; whole turns added
+        gap = 2 * pi - length
+        l2 = r.choice([0.0, 1e-7, length / 3, length, length + 0.02, gap / 2, gap, gap + 0.02, min(length + gap / 2, 6.2), 6.2])
+        off = r.choice([-0.03, 0.0, 0.03, length / 2, length - l2, length - l2 - 0.02, length - l2 + 0.02, length, length + 0.02,
+                        length + gap / 2, -gap / 2, 2 * pi - 0.03 - l2, -l2, -l2 / 2])
+        k = r.choice([0, 0, 1, -1, 2, -2])
+        case["c"] = float(start) + off + k * tau
+        case["d"] = case["c"] + l2
     elif op in ("a_add", "a_sub"):
-        case["x"] = r.choice([0.0, 1.0, -1.0, pi, -pi, 2 * pi, 3.5, r.uniform(-6, 6), 1, -2])
+        case["x"] = r.choice([0.0, 1.0, -1.0, pi, -pi, 2 * pi, 3.5, r.uniform(-6, 6), 1, -2, tau, -tau, 3 * tau, -50 * tau, 1000.5, -777,
+                              enc_np("f64", 0.75), enc_np("i64", 3), enc_np("i32", -2)])
         case["thetas"] = [r.uniform(-7, 7) for _ in range(6)]
     elif op == "a_setter":
         # query, then move one end through its property setter, then query again (a cached width must not survive)
@@ -396,6 +439,11 @@ def gen_angle(ctx):
     return case
 
 
+def enc_np(tag, v):
+    import numpy as np
+    return enc(getattr(np, _NP[tag])(v))
+
+
 def amem_exact(a: Fraction, b: Fraction, th: Fraction, tau: Fraction):
     """(member?, distance to the nearest end point modulo tau) in exact arithmetic."""
     import math as m
@@ -405,107 +453,151 @@ def amem_exact(a: Fraction, b: Fraction, th: Fraction, tau: Fraction):
     return member, dist
 
 
-def run_angle(ctx, case):
+def near_turn(x: Fraction, T: Fraction, band):
+    """x is within `band` of a non-zero whole multiple of tau (where a normalisation loop decides within round-off)."""
+    k = round(x / T)
+    return k != 0 and abs(x - k * T) < band
+
+
+def cmp_norm(ctx, raw, got, model, args, T, band, what):
+    """Correspondence of a normalised pair: equal within the band; when an argument sits within round-off of a loop
+    threshold (a whole multiple of tau) the two may legitimately end one turn apart."""
+    if "ok" not in model:
+        ctx.compare(raw, {"ok": "interval"}, model, what)
+        return
+    ms, me = unrat(model["ok"][0]), unrat(model["ok"][1])
+    ds, de = frac(got[0]) - ms, frac(got[1]) - me
+    okc = abs(ds) <= band and abs(de) <= band
+    if not okc and any(near_turn(frac(v), T, band) for v in args):
+        k = round(ds / T)
+        if abs(k) == 1 and abs(ds - k * T) <= band and abs(de - k * T) <= band:
+            ctx.excluded += 1
+            ctx.tag("angle/turn-ambiguous")
+            return
+    ctx.compare(raw, f"within {float(band)}" if okc else [rat(got[0]), rat(got[1])], f"within {float(band)}" if okc else model["ok"], what)
+
+
+def member_checks(ctx, raw, head, interval, thetas, lo, hi, label, T, band, shift=Fraction(0)):
+    """Compare the real membership of each theta in `interval` with the exact set [lo,hi] mod tau."""
+    impl, keep = [], []
+    for th_raw in thetas:
+        th = val(th_raw)
+        if isinstance(th, int):
+            ctx.tag("angle/int-arg")
+        elif type(th) is not float:
+            ctx.tag("angle/numpy-arg")
+        r1, r2 = call(interval.contains, th), call(interval.__contains__, th)
+        if r1[0] != "ok" or r2[0] != "ok":
+            bad = r1 if r1[0] != "ok" else r2
+            ctx.fail(f"C16/AngleInterval.{label}/raises-{bad[1]}",
+                     f"{head} membership of {th!r} ({type(th).__name__}) raised {bad[2]}",
+                     dict(raw, thetas=[th_raw]))
+            continue
+        if bool(r1[1]) != bool(r2[1]):
+            ctx.fail(f"C16/AngleInterval.{label}/contains-vs-__contains__", f"differ for {th!r}", dict(raw, thetas=[th_raw]))
+        member, dist = amem_exact(lo, hi, frac(th) - shift, T)
+        if abs(frac(th)) > abs(frac(th) - shift - lo) or abs(frac(th) - lo) >= T:
+            ctx.tag("angle/wrap")
+        if abs(frac(th)) > 100:
+            ctx.tag("angle/huge-theta")
+        if dist < band + abs(frac(th)) * Fraction(1, 10 ** 15):
+            ctx.excluded += 1
+            continue
+        impl.append(bool(r1[1]))
+        keep.append(th)
+        if bool(r1[1]) != member:
+            ctx.fail(f"C16/AngleInterval.{label}/wrong-membership",
+                     f"{head} -> [{float(lo)},{float(hi)}]: {th!r} reported {bool(r1[1])}, "
+                     f"set semantics (theta+2pi*k in [a,b]) give {member}", dict(raw, thetas=[th_raw]))
+    return impl, keep
+
+
+def containsI_check(ctx, raw, iv, jv, T, band, eps, tau, label="contains(interval)"):
+    """iv.contains(jv) against containment of all points (exact, with the ambiguity band)."""
+    A, B, C, D = frac(iv.start), frac(iv.end), frac(jv.start), frac(jv.end)
+    r3 = call(iv.contains, jv)        # (`jv in iv` is not exercised: AngleInterval.__contains__ is declared for numbers only)
+    if r3[0] != "ok":
+        ctx.fail(f"C16/AngleInterval.{label}/raises-{r3[1]}", f"{r3[2]}", raw)
+        return
+    # exact: offset d of C from A modulo tau, need d + (D-C) <= B-A ; ambiguous within the band
+    d = (C - A) % T
+    slack = (B - A) - (d + (D - C))
+    if T - d < band or abs(slack) < band:
+        ctx.excluded += 1             # J starts within round-off before I's start (modulo tau), or ends within round-off of I's end
+        return
+    want = slack >= 0
+    if ctx.driver is not None:
+        model = ctx.driver.ask("C16", "a_containsI", {"tau": rat(tau), "eps": rat(eps), "a": rat(iv.start), "b": rat(iv.end),
+                                                      "c": rat(jv.start), "d": rat(jv.end)})
+        ctx.compare(raw, {"ok": bool(r3[1])}, model, "AngleInterval.contains(AngleInterval) vs CR.Iv.containsAngleI")
+    ctx.tag("angle/containsI-true" if want else "angle/containsI-false")
+    if bool(r3[1]) != want:
+        ctx.fail(f"C16/AngleInterval.{label}/wrong",
+                 f"[{iv.start},{iv.end}].contains([{jv.start},{jv.end}]) = {r3[1]}, containment of all points gives {want}", raw)
+
+
+def run_angle(ctx, raw):
     from commonroad.common.util import AngleInterval
+    case = dec(raw)
     tau = _tau()
     T = frac(tau)
     eps = AngleInterval._TOLERANCE if hasattr(AngleInterval, "_TOLERANCE") else 0.0
     op = case["op"]
-    ctx.case(case)
+    ctx.case(raw)
     ctx.tag("angle/" + op)
+    band = BAND32 if '"f32:' in json.dumps(raw) else BAND
+    if band is BAND32:
+        ctx.tag("angle/float32")
     s, e = case["s"], case["e"]
+    if any(abs(frac(v) - b) == 0 for v in (s, e) for b in (T, -T, frac(math.pi), -frac(math.pi))):
+        ctx.tag("angle/bound-at-pi-or-2pi")
+    if abs(frac(s)) > 3 * T:
+        ctx.tag("angle/ctor-many-turns")
     r = call(AngleInterval, s, e)
     want_ok = frac(s) <= frac(e) and frac(e) - frac(s) < T
+    if abs(frac(e) - frac(s) - T) < band:
+        ctx.excluded += 1                               # length within round-off of 2pi: acceptance is not determined
+        return
     # --- construction: correspondence + oracle
     model_mk = ctx.driver.ask("C16", "mk_angle", {"tau": rat(tau), "s": rat(s), "e": rat(e)})
     if r[0] != "ok":
-        ctx.compare(case, {"err": r[1]}, model_mk if "err" in model_mk else {"ok": "interval"}, "AngleInterval() vs CR.Iv.mkAngle")
+        ctx.compare(raw, {"err": r[1]}, model_mk if "err" in model_mk else {"ok": "interval"}, "AngleInterval() vs CR.Iv.mkAngle")
         if want_ok:
-            ctx.fail(f"C16/AngleInterval.__init__/raises-{r[1]}", f"AngleInterval({s},{e}) raised {r[2]}", case)
+            ctx.fail(f"C16/AngleInterval.__init__/raises-{r[1]}", f"AngleInterval({s!r},{e!r}) raised {r[2]}", raw)
         return
     iv = r[1]
     if not want_ok:
-        # admissible boundary: float length may round below tau; only flag clear cases
-        if frac(s) > frac(e) or frac(e) - frac(s) >= T + BAND:
-            ctx.fail("C16/AngleInterval.__init__/not-rejected", f"AngleInterval({s},{e}) accepted", case)
+        ctx.fail("C16/AngleInterval.__init__/not-rejected", f"AngleInterval({s!r},{e!r}) accepted", raw)
         return
-    if "ok" in model_mk:
-        ms, me = unrat(model_mk["ok"][0]), unrat(model_mk["ok"][1])
-        okc = abs(ms - frac(iv.start)) <= BAND and abs(me - frac(iv.end)) <= BAND
-        ctx.compare(case, "normalised interval within 1e-9" if okc else [rat(iv.start), rat(iv.end)],
-                    "normalised interval within 1e-9" if okc else model_mk["ok"], "AngleInterval() vs CR.Iv.mkAngle")
-    else:
-        ctx.compare(case, {"ok": "interval"}, model_mk, "AngleInterval() vs CR.Iv.mkAngle")
+    cmp_norm(ctx, raw, (iv.start, iv.end), model_mk, (s, e), T, band, "AngleInterval() vs CR.Iv.mkAngle")
     A, B = frac(iv.start), frac(iv.end)
     k = round((A - frac(s)) / T)
-    if not (abs(A - frac(s) - k * T) <= BAND and abs((B - A) - (frac(e) - frac(s))) <= BAND and -T <= A and B <= T and A <= B):
-        ctx.fail("C16/AngleInterval.__init__/wrong-normalisation", f"AngleInterval({s},{e}) -> [{iv.start},{iv.end}]", case)
+    if not (abs(A - frac(s) - k * T) <= band and abs((B - A) - (frac(e) - frac(s))) <= band and -T - (band if band is BAND32 else 0) <= A
+            and B <= T + (band if band is BAND32 else 0) and A <= B):
+        ctx.fail("C16/AngleInterval.__init__/wrong-normalisation", f"AngleInterval({s!r},{e!r}) -> [{iv.start},{iv.end}]", raw)
     if B - A > frac(math.pi):
         ctx.tag("angle/long")
+    if B == A:
+        ctx.tag("angle/zero-length")
     if op == "mk_angle":
         return
-
-    def member_checks(interval, thetas, lo, hi, label, shift=Fraction(0)):
-        """Compare impl membership of each theta in `interval` with the exact set [lo,hi] mod tau."""
-        impl, keep = [], []
-        for th in thetas:
-            if isinstance(th, int):
-                ctx.tag("angle/int-arg")
-            r1, r2 = call(interval.contains, th), call(interval.__contains__, th)
-            if r1[0] != "ok" or r2[0] != "ok":
-                bad = r1 if r1[0] != "ok" else r2
-                ctx.fail(f"C16/AngleInterval.{label}/raises-{bad[1]}",
-                         f"AngleInterval({s},{e}) membership of {th!r} ({type(th).__name__}) raised {bad[2]}",
-                         dict(case, thetas=[th]))
-                continue
-            if bool(r1[1]) != bool(r2[1]):
-                ctx.fail(f"C16/AngleInterval.{label}/contains-vs-__contains__", f"differ for {th!r}", dict(case, thetas=[th]))
-            member, dist = amem_exact(lo, hi, frac(th) - shift, T)
-            if abs(frac(th)) > abs(frac(th) - shift - lo) or abs(frac(th) - lo) >= T:
-                ctx.tag("angle/wrap")
-            if dist < BAND:
-                ctx.excluded += 1
-                continue
-            impl.append(bool(r1[1]))
-            keep.append(th)
-            if bool(r1[1]) != member:
-                ctx.fail(f"C16/AngleInterval.{label}/wrong-membership",
-                         f"AngleInterval({s},{e}) -> [{float(lo)},{float(hi)}]: {th!r} reported {bool(r1[1])}, "
-                         f"set semantics (theta+2pi*k in [a,b]) give {member}", dict(case, thetas=[th]))
-        return impl, keep
+    head = f"AngleInterval({s!r},{e!r})"
 
     if op == "a_contains":
-        impl, keep = member_checks(iv, case["thetas"], A, B, "contains")
+        impl, keep = member_checks(ctx, raw, head, iv, raw["thetas"], A, B, "contains", T, band)
         if keep:
             model = ctx.driver.ask("C16", "a_contains", {"tau": rat(tau), "eps": rat(eps), "a": rat(iv.start), "b": rat(iv.end),
                                                          "thetas": [rat(t) for t in keep]})
-            ctx.compare(dict(case, thetas=keep), impl, model, "AngleInterval.contains vs CR.Iv.containsAngle")
-    elif op == "a_containsI":
+            if band is BAND:
+                ctx.compare(dict(raw, thetas=[enc(t) for t in keep]), impl, model, "AngleInterval.contains vs CR.Iv.containsAngle")
+    elif op in ("a_containsI", "a_rel"):
         ctx.tag("angle/containsI")
         r2 = call(AngleInterval, case["c"], case["d"])
         if r2[0] != "ok":
+            if frac(case["d"]) - frac(case["c"]) < T - band:
+                ctx.fail(f"C16/AngleInterval.__init__/raises-{r2[1]}", f"AngleInterval({case['c']!r},{case['d']!r}) raised {r2[2]}", raw)
             return
-        jv = r2[1]
-        C, D = frac(jv.start), frac(jv.end)
-        r3 = call(iv.contains, jv)
-        if r3[0] != "ok":
-            ctx.fail(f"C16/AngleInterval.contains(interval)/raises-{r3[1]}", f"{r3[2]}", case)
-            return
-        # exact: offset d of C from A modulo tau, need d + (D-C) <= B-A ; ambiguous within the band
-        d = (C - A) % T
-        slack = (B - A) - (d + (D - C))
-        slack2 = (B - A) - ((d - T) + (D - C)) if T - d < BAND else None   # start coincides modulo tau up to round-off
-        amb = abs(slack) < BAND or (slack2 is not None) or d < BAND and False
-        if slack2 is not None or abs(slack) < BAND:
-            ctx.excluded += 1
-        else:
-            want = slack >= 0
-            model = ctx.driver.ask("C16", "a_containsI", {"tau": rat(tau), "eps": rat(eps), "a": rat(iv.start), "b": rat(iv.end),
-                                                          "c": rat(jv.start), "d": rat(jv.end)})
-            ctx.compare(case, {"ok": bool(r3[1])}, model, "AngleInterval.contains(AngleInterval) vs CR.Iv.containsAngleI")
-            if bool(r3[1]) != want:
-                ctx.fail("C16/AngleInterval.contains(interval)/wrong",
-                         f"[{iv.start},{iv.end}].contains([{jv.start},{jv.end}]) = {r3[1]}, containment of all points gives {want}", case)
+        containsI_check(ctx, raw, iv, r2[1], T, band, eps, tau)
     elif op == "a_setter":
         for th in case["thetas"][:3]:
             call(iv.contains, th)
@@ -519,46 +611,46 @@ def run_angle(ctx, case):
             return
         r5 = call(setattr, iv, case["which"], v)
         if r5[0] != "ok":
-            ctx.fail(f"C16/AngleInterval.{case['which']}-setter/raises-{r5[1]}", f"[{A},{B}].{case['which']} = {v} raised {r5[2]}", case)
+            ctx.fail(f"C16/AngleInterval.{case['which']}-setter/raises-{r5[1]}", f"[{A},{B}].{case['which']} = {v} raised {r5[2]}", raw)
             return
         ctx.tag("angle/setter-then-query")
         A2, B2 = frac(iv.start), frac(iv.end)
         if (A2, B2) != ((frac(v), B) if case["which"] == "start" else (A, frac(v))):
-            ctx.fail(f"C16/AngleInterval.{case['which']}-setter/wrong-bounds", f"after {case['which']} = {v}: [{iv.start},{iv.end}]", case)
+            ctx.fail(f"C16/AngleInterval.{case['which']}-setter/wrong-bounds", f"after {case['which']} = {v}: [{iv.start},{iv.end}]", raw)
             return
-        impl, keep = member_checks(iv, case["thetas"], A2, B2, f"contains-after-{case['which']}-setter")
+        impl, keep = member_checks(ctx, raw, head, iv, raw["thetas"], A2, B2, f"contains-after-{case['which']}-setter", T, band)
         if keep:
             model = ctx.driver.ask("C16", "a_contains", {"tau": rat(tau), "eps": rat(eps), "a": rat(iv.start), "b": rat(iv.end),
                                                          "thetas": [rat(t) for t in keep]})
-            ctx.compare(dict(case, thetas=keep), impl, model, "AngleInterval.contains after a setter vs CR.Iv.containsAngle on the new bounds")
+            ctx.compare(dict(raw, thetas=keep), impl, model, "AngleInterval.contains after a setter vs CR.Iv.containsAngle on the new bounds")
         # interval containment after the setter: the interval contains itself and every sub-arc
         sub = call(AngleInterval, float(iv.start) + case["newlen"] / 4, float(iv.end) - case["newlen"] / 4)
         if sub[0] == "ok" and case["newlen"] > 1e-6:
             r6 = call(iv.contains, sub[1])
             if r6[0] != "ok" or not r6[1]:
                 ctx.fail(f"C16/AngleInterval.contains(interval)/wrong-after-{case['which']}-setter",
-                         f"[{iv.start},{iv.end}] (after the setter) does not contain its sub-arc [{sub[1].start},{sub[1].end}]: {r6[1:]}", case)
+                         f"[{iv.start},{iv.end}] (after the setter) does not contain its sub-arc [{sub[1].start},{sub[1].end}]: {r6[1:]}", raw)
     elif op in ("a_add", "a_sub"):
         ctx.tag("angle/shift")
         x = case["x"]
+        if abs(frac(x)) > 50:
+            ctx.tag("angle/shift-many-turns")
         r4 = call((lambda: iv + x) if op == "a_add" else (lambda: iv - x))
         if r4[0] != "ok":
-            ctx.fail(f"C16/AngleInterval.{op}/raises-{r4[1]}", f"[{iv.start},{iv.end}] {op} {x} raised {r4[2]}", case)
+            ctx.fail(f"C16/AngleInterval.{op}/raises-{r4[1]}", f"[{iv.start},{iv.end}] {op} {x!r} raised {r4[2]}", raw)
             return
         sh = r4[1]
         model = ctx.driver.ask("C16", op, {"tau": rat(tau), "a": rat(iv.start), "b": rat(iv.end), "x": rat(x)})
-        if "ok" in model:
-            ms, me = unrat(model["ok"][0]), unrat(model["ok"][1])
-            okc = abs(ms - frac(sh.start)) <= BAND and abs(me - frac(sh.end)) <= BAND
-            ctx.compare(case, "shifted interval within 1e-9" if okc else [rat(sh.start), rat(sh.end)],
-                        "shifted interval within 1e-9" if okc else model["ok"], f"AngleInterval {op} vs CR.Iv")
-        else:
-            ctx.compare(case, {"ok": "interval"}, model, f"AngleInterval {op} vs CR.Iv")
+        sgn = 1 if op == "a_add" else -1
+        bandx = band + abs(frac(x)) * Fraction(1, 10 ** 13)
+        cmp_norm(ctx, raw, (sh.start, sh.end), model, (A + sgn * frac(x), B + sgn * frac(x)), T, bandx, f"AngleInterval {op} vs CR.Iv")
         shift = frac(x) if op == "a_add" else -frac(x)
         if not isinstance(sh, AngleInterval) or not (frac(sh.start) <= frac(sh.end)):
-            ctx.fail(f"C16/AngleInterval.{op}/invalid-result", f"{sh}", case)
+            ctx.fail(f"C16/AngleInterval.{op}/invalid-result", f"{sh}", raw)
+        if (frac(iv.start), frac(iv.end)) != (A, B):
+            ctx.fail(f"C16/AngleInterval.{op}/operand-changed", f"the operand is now [{iv.start},{iv.end}]", raw)
         # image set: theta in shifted  <=>  theta - shift in original
-        member_checks(sh, case["thetas"], A, B, op, shift=shift)
+        member_checks(ctx, raw, head, sh, raw["thetas"], A, B, op, T, bandx, shift=shift)
 
 
 # ------------------------------------------------------------------------------------------------ histories on plain intervals
